@@ -29,6 +29,8 @@ package schedulerplugin
 // ---- the plugin's view of its IPAM and environment ----
 //@ pure crd(p *FloatingIPPlugin) *floatingip.crdIpam = as(floatingip.crdIpam, p.ipam)
 //@ pure ipamOK(p *FloatingIPPlugin) bool = p.ipam != nil && crd(p) != nil && inv(crd(p)) && synced(crd(p)) && held[ptr(crd(p).cacheLock)] == 0
+// ipamInv: ipamOK without "memory = store" (which a call with two or more failing API calls may lose)
+//@ pure ipamInv(p *FloatingIPPlugin) bool = p.ipam != nil && crd(p) != nil && inv(crd(p)) && held[ptr(crd(p).cacheLock)] == 0
 //@ pure envOK(p *FloatingIPPlugin) bool = p.IPAMContext != nil && p.PodLister != nil && p.Client != nil && p.podLockPool != nil && p.dpLockPool != nil
 //@ pure noLocksHeld() bool = forall l mint :: held[l] == 0
 //@ func (*FloatingIPPlugin).lockPod inline
@@ -134,10 +136,12 @@ package schedulerplugin
 //@   requires pod != nil && ipamOK(p) && envOK(p) && listersOK(p) && noLocksHeld() && p.podLockPool != p.dpLockPool
 //@   ensures ipamOK(p) && noLocksHeld()
 //@   ensures [C04,C01:unbind-only-own-key] otherKeysUntouched(K)
+//@   ensures [C10:unbind-unassigns-before-free-or-handover] result == nil && p.cloudProvider != nil ==> forall k string :: old(k in crd(p).allocatedFIPs) && old(StoreDom[k]) && old(StoreKey[k]) == K && (!StoreDom[k] || StoreKey[k] != K || StoreNode[k] != old(StoreNode[k])) ==> ProvNode[k] == ""
 //@   ensures [C04:unbind-spares-other-incarnation] forall k string :: old(k in crd(p).allocatedFIPs) && old(StoreDom[k]) && old(StoreKey[k]) == K && old(StoreUid[k]) != "" && pod.UID != "" && old(StoreUid[k]) != pod.UID ==> storeSameAt(k) && ProvNode[k] == old(ProvNode[k])
 //@   modifies all
 //@   loop 0,1 invariant ipamOK(p) && envOK(p) && listersOK(p) && p.podLockPool != p.dpLockPool && storeUnchanged()
 //@   loop 1 invariant forall k string :: (forall j int :: 0 <= j && j < idx ==> ipstr(ipInfos[j].FloatingIP.IP) != k) ==> ProvNode[k] == old(ProvNode[k])
+//@   loop 1 invariant forall j int {ipInfos[j]} :: 0 <= j && j < idx ==> ProvNode[ipstr(ipInfos[j].FloatingIP.IP)] == ""
 //@   loop 0 invariant ProvNode == old(ProvNode) && forall j int :: 0 <= j && j < idx ==> ipInfos[j].FloatingIP.PodUid == "" || pod.UID == "" || ipInfos[j].FloatingIP.PodUid == pod.UID
 
 // ---- allocateIP (bind): reuse, uid guard, provider assign (C01, C02, C03, C10, C13) ----
@@ -159,13 +163,32 @@ package schedulerplugin
 //@   modifies fresh elemsof([]nets.IPRange), fresh elemsof(nets.IPRange), fresh elemsof(byte), fresh elemsof(constant.IPInfo), fresh nets.IPNet.*
 //@   ensures reqIs(pod, result0.RequestIPRange)
 //@   ensures forall i int, r int {result0.RequestIPRange[i][r]} :: 0 <= i && i < len(result0.RequestIPRange) && 0 <= r && r < len(result0.RequestIPRange[i]) ==> nets.wfRange(result0.RequestIPRange[i][r])
-//@ func [WIP] (*FloatingIPPlugin).allocateIP
+// reusedOK(k): the IP was stored under this key on entry with no uid or with this pod's uid
+//@ pure reusedOK(k string, key string, uid string) bool = old(StoreDom[k]) && old(StoreKey[k]) == key && (old(StoreUid[k]) == "" || old(StoreUid[k]) == uid)
+//@ func [C03,C04,C01,C10] (*FloatingIPPlugin).allocateIP
 //@   requires pod != nil && key != "" && ipamOK(p) && envOK(p)
-//@   ensures ipamOK(p)
-//@   ensures [WIP:bind-only-own-key-or-new] forall k string :: old(StoreDom[k]) && old(StoreKey[k]) != key ==> storeSameAt(k)
-//@   ensures [WIP:bind-never-frees] forall k string :: old(StoreDom[k]) ==> StoreDom[k]
-//@   ensures [WIP:bind-uid-guard] result1 == nil && result0 != nil && len(result0.RequestIPRange) == 0 ==> forall i int :: 0 <= i && i < len(result0.Common.IPInfos) ==> (let s = ipstr(result0.Common.IPInfos[i].IP.IP) in old(StoreDom[s]) && old(s in crd(p).allocatedFIPs) ==> old(StoreUid[s]) == "" || old(StoreUid[s]) == pod.UID)
+//@   ensures ipamInv(p) && (old(faults) <= 1 ==> synced(crd(p)))
+//@   ensures [C04,C01:bind-only-own-key-or-new] forall k string :: old(StoreDom[k]) && old(StoreKey[k]) != key ==> storeSameAt(k)
+//@   ensures [C04,C01:bind-never-frees-or-rekeys] forall k string :: old(StoreDom[k]) ==> StoreDom[k] && StoreKey[k] == old(StoreKey[k])
+//@   ensures [C03,C04:bind-uid-guard] forall k string :: old(StoreDom[k]) && StoreUid[k] != old(StoreUid[k]) ==> old(StoreUid[k]) == "" && old(StoreKey[k]) == key && StoreUid[k] == pod.UID
+//@   ensures [C10:bind-assigns-only-to-this-node] forall k string :: ProvNode[k] != old(ProvNode[k]) ==> ProvNode[k] == nodeName
 //@   modifies all
+//@   loop 0 invariant ipamOK(p) && envOK(p) && storeUnchanged() && ProvNode == old(ProvNode) && reservedIPs != nil && fresh(reservedIPs) && wfRangeLists(unallocatedIPRange)
+//@   loop 0 invariant forall s string :: s in reservedIPs ==> exists j int :: 0 <= j && j < idx && ipInfos[j] != nil && ipstr(ipInfos[j].FloatingIP.IP) == s
+//@   loop 1 invariant ipamOK(p) && envOK(p) && storeUnchanged() && ProvNode == old(ProvNode) && reservedIPs != nil && fresh(reservedIPs) && wfRangeLists(unallocatedIPRange)
+//@   loop 1 invariant forall s string :: s in reservedIPs ==> exists j int :: 0 <= j && j < len(ipInfos) && ipInfos[j] != nil && ipstr(ipInfos[j].FloatingIP.IP) == s
+//@   loop 1 invariant forall j int {ipInfos[j]} :: 0 <= j && j < idx && ipInfos[j] != nil ==> ipInfos[j].FloatingIP.PodUid == "" || ipInfos[j].FloatingIP.PodUid == pod.UID
+//@   loop 2 invariant ipamOK(p) && envOK(p) && reservedIPs != nil && fresh(reservedIPs) && (forall s string :: s in reservedIPs ==> reusedOK(s, key, pod.UID))
+//@   loop 2 invariant forall k string :: old(StoreDom[k]) && old(StoreKey[k]) != key ==> storeSameAt(k)
+//@   loop 2 invariant forall k string :: old(StoreDom[k]) ==> StoreDom[k] && StoreKey[k] == old(StoreKey[k])
+//@   loop 2 invariant forall k string :: old(StoreDom[k]) && StoreUid[k] != old(StoreUid[k]) ==> old(StoreUid[k]) == "" && old(StoreKey[k]) == key && StoreUid[k] == pod.UID
+//@   loop 2 invariant forall k string :: ProvNode[k] != old(ProvNode[k]) ==> ProvNode[k] == nodeName
+//@   loop 2 invariant forall j int {ipInfos[j]} :: 0 <= j && j < len(ipInfos) && ipInfos[j] != nil ==> ipInfos[j].IPInfo.IP != nil && ipInfos[j].IPInfo.IP.IP == ipInfos[j].FloatingIP.IP
+//@   loop 3 invariant ipamOK(p)
+//@   loop 3 invariant forall k string :: old(StoreDom[k]) && old(StoreKey[k]) != key ==> storeSameAt(k)
+//@   loop 3 invariant forall k string :: old(StoreDom[k]) ==> StoreDom[k] && StoreKey[k] == old(StoreKey[k])
+//@   loop 3 invariant forall k string :: old(StoreDom[k]) && StoreUid[k] != old(StoreUid[k]) ==> old(StoreUid[k]) == "" && old(StoreKey[k]) == key && StoreUid[k] == pod.UID
+//@   loop 3 invariant forall k string :: ProvNode[k] != old(ProvNode[k]) ==> ProvNode[k] == nodeName
 
 // ---- filter: which node subnets are offered to a pod (C06, C08) ----
 // appTypeOf: the workload-type prefix util.FormatKey derives for the pod ("dp_", "sts_", ...)
@@ -189,9 +212,11 @@ package schedulerplugin
 
 // allocateDuringFilter: re-keys / allocates inside the IPAM; pool topology and every set object
 // that existed before are untouched (modifies clause)
-//@ func [C06,C18] (*FloatingIPPlugin).allocateDuringFilter
+//@ func [C06,C02,C18] (*FloatingIPPlugin).allocateDuringFilter
 //@   requires keyObj != nil && ipamOK(p)
 //@   ensures ipamOK(p)
+//@   ensures [C02:reserved-ip-is-rekeyed-not-replaced] reserve ==> StoreDom == old(StoreDom)
+//@   ensures [C02:filter-allocation-only-adds] forall k string :: old(StoreDom[k]) ==> StoreDom[k]
 //@   modifies map(crd(p).allocatedFIPs), map(crd(p).unallocatedFIPs), floatingip.FloatingIP.Key, floatingip.FloatingIP.Policy, floatingip.FloatingIP.UpdatedAt, floatingip.FloatingIP.NodeName, floatingip.FloatingIP.PodUid, fresh floatingip.FloatingIP.IP, fresh floatingip.FloatingIP.pool, fresh floatingip.FloatingIP.Labels, StoreDom, StoreKey, StorePolicy, StoreNode, StoreUid, faults, fresh elemsof(byte), fresh floatingip.FloatingIPInfo.*, fresh nets.IPNet.*, fresh net.IPNet.*, fresh mapsof(map[string]sets.Empty), fresh elemsof(string)
 
 // getSubnet: the node subnets offered to the pod.
